@@ -158,7 +158,8 @@ func (m *ModuleInstance) ensureResourcesClosed(ctx context.Context) (err error) 
 		m.Sys = nil
 	}
 
-	if mem := m.MemoryInstance; mem != nil {
+	// An imported memory belongs to the module that defines it, which may still be open.
+	if mem := m.MemoryInstance; mem != nil && mem.ownerModuleEngine == m.Engine {
 		if mem.expBuffer != nil {
 			mem.expBuffer.Free()
 			mem.expBuffer = nil
